@@ -1187,6 +1187,16 @@ def order_only_restore_rule(ctx, res, rule: str) -> None:
                         def canon_cm(e, bound=bound):
                             return bound.get(e.id) if isinstance(e, ast.Name) else canon0(e)
                         tries += [(t, canon_cm) for t in walk_local(cm.node) if isinstance(t, ast.Try)]
+        # ... or of a try in a private method of the class that the method hands one of the lists
+        for c in calls_in(m.node):
+            if is_self_attr(c.func) and c.func.attr.startswith("_"):
+                hm = idx.find_method(hist.qualname, c.func.attr)
+                if hm is not None and not any(d.split(".")[-1] == "contextmanager" for d in hm.decorator_names()):
+                    bound = {p: canon0(a) for p, a in zip(hm.call_params(), c.args) if canon0(a)}
+                    if bound:
+                        def canon_h(e, bound=bound):
+                            return bound.get(e.id) if isinstance(e, ast.Name) else canon0(e)
+                        tries += [(t, canon_h) for t in walk_local(hm.node) if isinstance(t, ast.Try)]
         for t, canon in tries:
             for h in t.handlers:
                 for st in [x for b in h.body for x in [b, *walk_local(b)] if isinstance(x, ast.stmt)]:
@@ -1301,6 +1311,35 @@ def _is_col_read(x: ast.AST) -> bool:
             and isinstance(x.args[1], ast.Constant) and x.args[1].value in _COLS)
 
 
+def _subst_single_locals(fn_node, expr, depth: int = 0):
+    """a copy of expr in which every local of the function that is bound exactly once (plain assignment) is replaced by the
+    expression it was bound to"""
+    import copy
+    binds: Dict[str, List[ast.expr]] = {}
+    for x in walk_local(fn_node):
+        if isinstance(x, ast.Assign):
+            for t in x.targets:
+                if isinstance(t, ast.Name):
+                    binds.setdefault(t.id, []).append(x.value)
+        elif isinstance(x, (ast.AugAssign, ast.For, ast.NamedExpr)) and isinstance(getattr(x, "target", None), ast.Name):
+            binds.setdefault(x.target.id, []).extend([None, None])
+    params = set(param_names(fn_node))
+
+    class S(ast.NodeTransformer):
+        def __init__(self):
+            self.d = 0
+
+        def visit_Name(self, n):
+            v = binds.get(n.id)
+            if isinstance(n.ctx, ast.Load) and n.id not in params and v and len(v) == 1 and v[0] is not None and self.d < 5:
+                self.d += 1
+                out = self.visit(copy.deepcopy(v[0]))
+                self.d -= 1
+                return out
+            return n
+    return S().visit(copy.deepcopy(expr))
+
+
 def column_to_offset_anchor(ctx, res, rule: str) -> None:
     """`codeanalyze.column_to_offset(line, byte_column)` is the one place that turns a byte column into an index: it must
     measure the UTF-8 encoding of the line, and may return the number unchanged only for an ASCII line."""
@@ -1330,6 +1369,7 @@ def column_to_offset_anchor(ctx, res, rule: str) -> None:
             if not ok:
                 bad = bad or (r, f"returns `{col}` unchanged although the line is not known to be ASCII")
             continue
+        v = _subst_single_locals(f.node, v)  # `prefix = line.encode(...)[:byte_column]` ... `len(prefix.decode(...))` reads like the one-liner
         enc = [c for c in ast.walk(v) if isinstance(c, ast.Call) and call_name(c) == "encode" and isinstance(c.func, ast.Attribute) and dotted(c.func.value) == line]
         utf8 = all((not c.args and not c.keywords) or (c.args and isinstance(c.args[0], ast.Constant) and str(c.args[0].value).lower().replace("_", "-") in ("utf-8", "utf8")) for c in enc)
         cut = [s for s in ast.walk(v) if isinstance(s, ast.Subscript) and isinstance(s.slice, ast.Slice) and s.slice.lower is None
@@ -1788,31 +1828,17 @@ def identifier_char_rule(ctx, res, rule: str, modules, rest: bool = False, occur
     f = idx.functions.get("rope.base.worder.is_identifier_char")
     if f is not None:
         ps = param_names(f.node)
+        # `(<identifier start> + char).isidentifier()` decides for some characters: the call stands in a returned value or in
+        # a test of the function (a boolean chain or guard clauses -- either way it is an alternative of the answer)
         good = None
-        for r in [x for x in walk_local(f.node) if isinstance(x, ast.Return) and x.value is not None]:
-            for c in ast.walk(r.value):
+        deciding = [x.value for x in walk_local(f.node) if isinstance(x, ast.Return) and x.value is not None] + \
+                   [x.test for x in walk_local(f.node) if isinstance(x, (ast.If, ast.IfExp))]
+        for e in deciding:
+            for c in ast.walk(e):
                 if isinstance(c, ast.Call) and call_name(c) == "isidentifier" and isinstance(c.func, ast.Attribute) and isinstance(c.func.value, ast.BinOp) \
                         and isinstance(c.func.value.op, ast.Add) and isinstance(c.func.value.left, ast.Constant) and isinstance(c.func.value.left.value, str) \
                         and c.func.value.left.value.isidentifier() and isinstance(c.func.value.right, ast.Name) and ps and c.func.value.right.id == ps[0]:
-                    # it must be an ALTERNATIVE of the answer: reachable through `or` / a guard `not char.isascii() and ...`
                     good = c
-            if good is not None:
-                par = {}
-                for p in ast.walk(r.value):
-                    for ch in ast.iter_child_nodes(p):
-                        par[ch] = p
-                cur = good
-                while cur is not r.value:
-                    p = par[cur]
-                    if isinstance(p, ast.BoolOp) and isinstance(p.op, ast.And):
-                        others = [v for v in p.values if v is not cur]
-                        if not all(isinstance(o, ast.UnaryOp) and isinstance(o.op, ast.Not) and isinstance(o.operand, ast.Call) and call_name(o.operand) == "isascii" for o in others):
-                            good = None
-                            break
-                    elif not (isinstance(p, ast.BoolOp) and isinstance(p.op, ast.Or)):
-                        good = None
-                        break
-                    cur = p
         res.add(rule, "is_identifier_char|asks-the-interpreter", good is not None, f.where,
                 "a non-ASCII character is accepted when `start + char` is an identifier for the interpreter" if good is not None else
                 "worder.is_identifier_char does not ask `(<start> + char).isidentifier()` as an alternative of its answer: combining marks and connectors "
@@ -1893,3 +1919,21 @@ def identifier_char_rule(ctx, res, rule: str, modules, rest: bool = False, occur
 
 def const_str_(x) -> Optional[str]:
     return x.value if isinstance(x, ast.Constant) and isinstance(x.value, str) else None
+
+
+def callee_names(fn_node: ast.AST, call: ast.Call) -> List[Tuple[str, Optional[ast.expr], Optional[bool]]]:
+    """What a call calls, by name: [(name, condition, polarity)].  For `f(...)` / `x.f(...)` one entry without condition.
+    For a call of a LOCAL that was bound once to a callable chosen by a conditional expression --
+    `get = p.get_folder if flag else p.get_file` ... `get(path)` -- one entry per alternative with the test and the side it
+    stands on; bound once to a plain attribute / name: that name.  (The local's own name says nothing about what is called.)"""
+    f = call.func
+    if isinstance(f, ast.Name):
+        binds = [x.value for x in walk_local(fn_node) if isinstance(x, ast.Assign) and len(x.targets) == 1 and isinstance(x.targets[0], ast.Name) and x.targets[0].id == f.id]
+        if len(binds) == 1:
+            v = binds[0]
+            nm = lambda e: e.attr if isinstance(e, ast.Attribute) else e.id if isinstance(e, ast.Name) else None
+            if isinstance(v, ast.IfExp) and nm(v.body) and nm(v.orelse):
+                return [(nm(v.body), v.test, True), (nm(v.orelse), v.test, False)]
+            if nm(v):
+                return [(nm(v), None, None)]
+    return [(call_name(call), None, None)]
